@@ -24,7 +24,9 @@ func (v *Vue) evalInclude(ctx VueContext, node *html.Node, vars map[string]any, 
 
 	// Every include has its own slot scope: the content supplied on this tag.
 	// (ctx is a copy, so the includer's scope is untouched.)
+	outerSlotScope := ctx.SlotScope
 	ctx.SlotScope = extractSlotContent(node)
+	ctx.SlotScope.parent = outerSlotScope
 
 	// Merge inherited slots from parent template (passed via __slotScope__ in data)
 	if inheritedSlotScopeData, ok := ctx.stack.EnvMap()["__slotScope__"]; ok {
